@@ -328,6 +328,16 @@ async fn episode(p: &EpParams) -> EpReport {
                     let mut waiting: BTreeMap<String, Vec<u64>> = BTreeMap::new();
                     waiting.insert(s.clone(), vec![still_waiting as u64]);
                     w.quiesce(&[s.clone()], waiting).await;
+                    // the same observation seen from C15: a unary Pull without return_immediately
+                    // keeps waiting although a message is available
+                    let pulls_waiting = waiters.iter().filter(|wt| matches!(wt, Waiter::Pull { task, .. } if !task.is_finished())).count();
+                    if pulls_waiting > 0 {
+                        rep.viol(
+                            "C15",
+                            format!("C15:blocked-pull-not-woken:{}", last_cause),
+                            format!("at a quiescent point {} message(s) sit in the backlog of {} while {} blocking Pull(s) keep waiting; last availability event: {}", st2.backlog, short(&s), pulls_waiting, last_cause),
+                        );
+                    }
                     rep.viol(
                         "C06",
                         format!("C06:Q-wake:{}:{}", last_cause, kind),
